@@ -185,6 +185,9 @@ func c16Families(tier string) []engine.Family {
 					if _, err := w.Write(c.Doc[i : i+1]); err != nil {
 						// "delivers no further event of that document": neither when the caller goes on writing the rest
 						if i+1 < len(c.Doc) {
+							if x.Bool() {
+								w.Write(nil) // an empty write in between must not make the parser forget that it failed
+							}
 							_, laterErr = w.Write(c.Doc[i+1:])
 							laterCalled = true
 						}
